@@ -212,17 +212,19 @@ func (l *typeSetLoader) Discover(c px.Context, predicate func(tn px.TypedName) b
 	found := make([]px.TypedName, 0)
 	ts := l.typeSet.Types()
 	ts.EachKey(func(v px.Value) {
-		tn := v.(px.TypedName)
+		// The keys of the type set are the simple names of its members
+		tn := px.NewTypedName2(px.NsType, v.String(), l.NameAuthority())
 		if predicate(tn) {
 			found = append(found, tn)
 		}
 	})
 
-	pf := l.parentedLoader.Discover(c, func(tn px.TypedName) bool { return !ts.IncludesKey(tn) && predicate(tn) })
-	if len(pf) > 0 {
-		found = append(found, pf...)
-		sort.Slice(found, func(i, j int) bool { return found[i].MapKey() < found[j].MapKey() })
-	}
+	pf := l.parentedLoader.Discover(c, func(tn px.TypedName) bool {
+		_, member := l.typeSet.GetType(tn)
+		return !member && predicate(tn)
+	})
+	found = append(found, pf...)
+	sort.Slice(found, func(i, j int) bool { return found[i].MapKey() < found[j].MapKey() })
 	return found
 }
 
